@@ -12,6 +12,8 @@
 //	part "sched:*" Engine B (verif/sched): 2-3 threads on colliding subscribers, every mutex operation
 //	             and every fake-store call a scheduling point, all schedules with <= 2 (thorough 3)
 //	             preemptions; R1/R2/R3 + stability at the end of every schedule (sched_test.go)
+//	part "pool"  two allocator.PoolAllocator sharing one AllocationStore whose next Save/Remove can fail: bitmap and
+//	             store record agree per (pool, subscriber) after every operation (pool_test.go)
 //	part "r5-*"  IPAllocator, EpochBitmapAllocator, MemoryAllocationStore:
 //	             X' = Unmarshal(Marshal(X)) in every reachable X answers every
 //	             query identically and keeps doing so after each further op. R5
@@ -29,6 +31,7 @@ import (
 
 func models(run *report.Run) []*explore.Model {
 	ms := distModels(run.Thorough())
+	ms = append(ms, poolModels(run.Thorough())...)
 	ms = append(ms, r5Models(run.Thorough())...)
 	return ms
 }
